@@ -278,7 +278,7 @@ def family_check(prop, tier, b1_instances, b2_families, level_text, assumptions,
                            "state_diff": f.get("state_diff")},
                      what="%s: after %s, %s -> %s %s" % (cfg, f.get("path"), f["cmd"], show_reply(f["got"]), f.get("state_diff") or ""))
     for fam in b2_families:
-        deep = fam == "zsetdeep"   # long programmes on one sorted set: deep AVL trees, structure checked after every command
+        deep = fam in ("zsetdeep", "listdeep", "streamdeep")   # long programmes on ONE object: deep trees / long lists / trimmed streams, structure checked after every command
         r = run_b2(fam, max(8, b2_progs // 4) if deep else b2_progs, 90 if deep else b2_steps, seed, nproc=8)
         cov["traces_validated_against_impl"] += r["programmes"]
         cov["b2"][fam] = {"programmes": r["programmes"], "events": r["events"], "labels": len(r["labels"]), "mismatching_programmes": len(r["mismatches"])}
